@@ -83,6 +83,36 @@ int __wrap_idn2_to_ascii_8z (const char *input, char **output, int flags)
     return rc;
 }
 
+
+/* ---- giant inputs: prefix ++ pattern* ++ suffix of total length len, NUL-terminated, built from one 2 MiB file mapped over and over (costs
+ * a few pages of memory whatever the length); the pattern length must divide 4096 ---- */
+static char *giant_make (const unsigned char *pre, size_t prel, const unsigned char *pat, size_t patl, const unsigned char *suf, size_t sufl,
+                         size_t len, size_t *total_out)
+{
+    size_t chunk = (size_t) 2 << 20;
+    const char *td = getenv ("TMPDIR");
+    char path[512];
+    snprintf (path, sizeof path, "%s/verif_giant_XXXXXX", td && *td ? td : "/tmp");
+    int fd = mkstemp (path);
+    if (fd < 0) return NULL;
+    unlink (path);
+    char *buf = malloc (chunk);
+    for (size_t i = 0; i < chunk; i++) buf[i] = (char) pat[i % patl];
+    if (write (fd, buf, chunk) != (ssize_t) chunk) { free (buf); close (fd); return NULL; }
+    free (buf);
+    size_t total = ((len + chunk) / chunk + 1) * chunk;
+    char *base = mmap (NULL, total, PROT_NONE, MAP_PRIVATE | MAP_ANONYMOUS | MAP_NORESERVE, -1, 0);
+    if (base == MAP_FAILED) { close (fd); return NULL; }
+    for (size_t off = 0; off < total; off += chunk)
+        if (mmap (base + off, chunk, PROT_READ | PROT_WRITE, MAP_PRIVATE | MAP_FIXED, fd, 0) == MAP_FAILED) { close (fd); munmap (base, total); return NULL; }
+    close (fd);
+    memcpy (base, pre, prel);
+    memcpy (base + len - sufl, suf, sufl);
+    base[len] = 0;
+    *total_out = total;
+    return base;
+}
+
 /* ---- helpers ---- */
 static int hexval (int c) { return c <= '9' ? c - '0' : (c | 32) - 'a' + 10; }
 
@@ -476,6 +506,31 @@ int main (int argc, char **argv)
             }
             fprintf (out, "%d %d", rc, rc == -EEAV_IDN_ERROR ? idn : 0);
             jfree (p);
+        } else if (!strcmp (tok[0], "G") && nt == 6) {
+            /* G <fn> <prefix> <pattern> <suffix> <len>: a per-part validator (or is_*_email, TLD checking off) on a giant input */
+            size_t prel, patl, sufl, total = 0;
+            unsigned char *pre = unhex (tok[2], &prel), *pat = unhex (tok[3], &patl), *suf = unhex (tok[4], &sufl);
+            size_t len = strtoull (tok[5], NULL, 10);
+            char *g = giant_make (pre, prel, pat, patl, suf, sufl, len, &total);
+            if (g == NULL) fprintf (out, "NOMEM");
+            else {
+                const char *f = tok[1];
+                int rc;
+                if (!strcmp (f, "L822")) rc = is_822_local (g, g + len);
+                else if (!strcmp (f, "L5321")) rc = is_5321_local (g, g + len);
+                else if (!strcmp (f, "L5322")) rc = is_5322_local (g, g + len);
+                else if (!strcmp (f, "L6531")) rc = is_6531_local (g, g + len);
+                else if (!strcmp (f, "S")) rc = is_special_domain (g, g + len);
+                else if (!strcmp (f, "D")) rc = is_ascii_domain (g, g + len);
+                else if (!strcmp (f, "4")) rc = is_ipv4 (g, g + len);
+                else if (!strcmp (f, "6")) rc = is_ipv6 (g, g + len);
+                else if (!strcmp (f, "T")) rc = is_tld (g, g + len);
+                else if (f[0] == 'E') { eav_result_t *r = mode_fn (atoi (f + 1)) (g, len, false); rc = r->rc; eav_result_free (r); }
+                else rc = -9999;
+                fprintf (out, "%d", rc);
+                munmap (g, total);
+            }
+            free (pre); free (pat); free (suf);
         } else if (!strcmp (tok[0], "H") && nt == 2) {
             run_history (out, tok[1]);
         } else {
